@@ -39,7 +39,8 @@ Qed.
 
 Definition bt2 (r : nat) : list nat := [0; 1].
 Definition po3 (t : nat) : list nat := [0; 1; 2].
-Notation trun := (Toy.t_run bt2 po3).
+Definition dk2 (r sel : nat) : list nat := [2 * sel; 2 * sel + 1].
+Notation trun := (Toy.t_run bt2 po3 dk2).
 Notation tspec := Toy.t_spec.
 Notation tinit := (init Toy.tval (list nat)).
 
